@@ -1,5 +1,5 @@
 # replay of a bounded stand-in violation: re-run native/c01_backends.py
 import sys
-print("LossChannel(0.7,) | q[1] of 2 after Del | q[0] (indices shifted by one) on fock: raised ValueError: axes don't match array")
+print("Sgate(0.3, 0.8).H | q[0] of 2 on bosonic: ('quad', 0, 0.0) = [0.8149, 1.225], the documented action gives [0.0809, 1.225]")
 print('REPLAY-VIOLATION')
 sys.exit(1)
